@@ -1,6 +1,7 @@
 ---------------------------- MODULE P_ReservoirDist ----------------------------
-(* C05 verdict on the code's own behaviour: the harness executed every draw of     *)
-(* the bounded model on real samplers and recorded the table                       *)
+(* C05 verdict on the code's own behaviour: the harness executed every outcome of  *)
+(* every draw in every state the REAL sampler reaches within 4k+1 adds (breadth     *)
+(* first over the code's own states, rs.rs `dist`) and recorded the table           *)
 (*      (stream index, reservoir before, weight of the draw) |-> reservoir after.  *)
 (* This module pushes exact weights through that RECORDED table (not through the   *)
 (* mechanism spec) and checks the integer identity Incl(pos) * n = k * Total for   *)
@@ -8,7 +9,9 @@
 EXTENDS Integers, Sequences, FiniteSets, FiniteSetsExt, TLC, Json, IOUtils
 Rec == ndJsonDeserialize(IOEnv.TRACE)
 KK == Rec[1].kk
-T == 4 * KK
+\* last level whose draws were recorded (4k unless the code consumed the random script differently from the
+\* mechanism spec at some level: the levels from there on are not judged, see DESIGN.md)
+T == IF "tmax" \in DOMAIN Rec[1] THEN Rec[1].tmax ELSE 4 * KK
 Rows(idx) == {i \in 2 .. Len(Rec) : Rec[i].n_pre = idx}
 \* weights are only meaningful up to a common factor: they are divided by their gcd at every level, which keeps
 \* them within TLC's 32-bit integers for k = 3 as well (a uniform sampler gives equal weights at each level)
@@ -26,7 +29,9 @@ Total(d) == FoldSet(LAMBDA r, acc : acc + d[r], 0, DOMAIN d)
 Incl(d, p) == FoldSet(LAMBDA r, acc : acc + (IF \E x \in 1 .. Len(r) : r[x] = p THEN d[r] ELSE 0), 0, DOMAIN d)
 Uniform(n) == LET d == Dist(n) IN \A p \in 0 .. (n - 1) : Incl(d, p) * n = KK * Total(d)
 \* every reservoir reached at level n-1 must have its outgoing draws recorded (the table is complete)
-Complete(n) == \A r \in DOMAIN Dist(n - 1) : \E i \in Rows(n - 1) : Rec[i].res_pre = r
+\* (and some reservoir must be reached at all: an empty distribution would satisfy Uniform vacuously)
+Complete(n) == /\ DOMAIN Dist(n - 1) # {} /\ DOMAIN Dist(n) # {}
+               /\ \A r \in DOMAIN Dist(n - 1) : \E i \in Rows(n - 1) : Rec[i].res_pre = r
 VARIABLE n
 Init == n = KK
 Next == /\ n <= T + 1
